@@ -1,5 +1,6 @@
 (* Extraction of the executable model and specification of C12 (ExtrOcamlBasic only). *)
-From MptV Require Import Base.Mem C12.ReplyModel C12.ReplySpec C12.ConnModel C12.SinModel.
+From MptV Require Import Base.Mem C12.ReplyModel C12.ReplySpec C12.ConnModel C12.SinModel C12.SrmModel.
 Require Import ExtrOcamlBasic.
 Extraction "c12_model.ml" id2buf buf2id s_id2buf s_buf2id init sinit run srun mview sview live sin_request
-  minit sinit_c mcrun scrun sin_request2 sin_skip sin_conv sin_create_ok reserve_run.
+  minit sinit_c mcrun scrun sin_request2 sin_skip sin_conv sin_create_ok reserve_run
+  ctx_reply_none sin_request_q s_sin_request_q srm_reply_cap.
